@@ -126,6 +126,9 @@ def run_selftest(ctx: Ctx, pack, root: str) -> None:
     ctx.stats["selftest_detail"] = detail  # type: ignore[assignment]
     print(f"  self-test: {killed}/{len(muts)} mutants killed, {survived} survived, {na} n/a; "
           f"{ref_ok}/{len(refs)} behaviour-preserving edits silent, {ref_bad} false alarm(s)")
+    for dd in detail:
+        if dd.get("result") in ("not-applicable", "masked"):
+            print(f"  selftest n/a: {dd['name']}: {str(dd.get('why'))[:160]}")
     for p in problems:
         print("  SELFTEST-PROBLEM " + p)
     from .report import load_known
